@@ -70,7 +70,7 @@ def boot(import_all=True):
         sys.path.insert(0, REPO)
     # Pre-import the stdlib modules beartype pulls in lazily, *before* the lock
     # factories are replaced, so that only beartype binds the simulator's.
-    for name in ('asyncio', 'concurrent.futures', 'logging', 'queue', 'functools',
+    for name in ('__future__', 'marshal', 'asyncio', 'concurrent.futures', 'logging', 'queue', 'functools',
                  'typing', 'collections.abc', 'contextlib', 'inspect', 'ast',
                  'importlib.machinery', 'importlib.util', 'importlib.abc',
                  'weakref', 'enum', 'dataclasses', 're', 'types', 'numbers',
